@@ -47,7 +47,7 @@ def cases(tier, salts):
                         if n == 4 and tier == "quick" and menu in ("rot45", "flip"):
                             continue
                         for gen in ("random", "orthog", "orthog_noneg"):
-                            for delta in ((1e-3, 1.0) if tier == "thorough" else (1.0,)):
+                            for delta in ((1e-3, 0.3, 1.0, 3.0, 50.0) if tier == "thorough" else (0.3, 1.0, 3.0)):
                                 out.append({"k": "dirs", "n": n, "pat": list(pat), "cnt": cnt, "menu": menu, "gen": gen,
                                             "delta": delta, "salt": salt})
     return out
